@@ -90,6 +90,8 @@ def generate(seed, tier="quick"):
         # preferring the call sites inside prior.py.
         op = {"id": 0, "op": "rejection_by_count", "data": 0, "N": rnd.randint(4, 12), "source": "object", "in_memory": False,
               "kw": {"n_linear_samples": 1, "n_batches": rnd.choice([1, 2]), "return_logprobs": rnd.random() < 0.7}}
+    if op.get("source") == "file" and rnd.random() < 0.3:
+        cfg["file_spelling"] = rnd.choice(["dot", "double-slash", "dotdot"])
     if op.get("source") == "file" and rnd.random() < 0.08:
         cfg["joker_tempfile_path_rel"] = "jokertmp"  # see Trialer: user file kept inside the sampler's tempfile_path
     pk = rnd.random()
@@ -257,9 +259,23 @@ class Trialer:
         self.dep.pools = self.dep.pools[-2:]
         return self.dep.make_joker(pool, rng), rng, pool
 
+    def spelled(self, path):
+        """The same file, named the way users do: not necessarily an absolute NORMALISED path."""
+        how = self.program["config"].get("file_spelling")
+        if not how:
+            return path
+        d, b = os.path.split(path)
+        if how == "dot":
+            return os.path.join(d, ".", b)
+        if how == "double-slash":
+            return d + "//" + b
+        if how == "dotdot":
+            return os.path.join(d, os.pardir, os.path.basename(d), b)
+        return path
+
     def call(self, joker):
         op = self.op
-        src = self.user_file if op.get("source") == "file" else self.w.libraries[0].samples
+        src = self.spelled(self.user_file) if op.get("source") == "file" else self.w.libraries[0].samples
         data = self.w.datasets[0]
         if hasattr(joker.pool, "begin_op"):
             joker.pool.begin_op(op["id"])
